@@ -4452,6 +4452,9 @@ def bundle_readpath(P, R, L):
     R.once(round11.mem1_memtable_iterator_primitives, P, R, L)
     R.clause("CACHE-1", "CachingIterator refreshes is_valid / cached_entry from its child after every repositioning and answers from that cache")
     R.once(round11.cache1_caching_iterator_refresh, P, R, L)
+    from . import round12
+    R.clause("CACHE-2", "the LRU cache behind the table cache and the block cache is asked, filled and pruned with the caller's key (an eviction unmaps the evicted key); partition ids are fresh; a block-cache miss reads and caches the requested handle")
+    R.once(round12.cache2_cache_identity, P, R, L)
 
 
 def bundle_recovery(P, R, L):
